@@ -23,7 +23,7 @@ From Coq Require Import List Arith NArith ZArith Bool Lia.
 From Verif Require Import Base.Bytes Base.Outcome Model.Quote Model.Args Model.Numfmt
   Model.StatusQuery Model.Xfer Model.Md5 Model.RawProto Model.Wire
   Proofs.XferProofs Proofs.RawProofs Proofs.WireProofs Proofs.WireInv Proofs.WireTheorems
-  Proofs.WireWitness.
+  Proofs.WireOnce Proofs.WireWitness.
 Import ListNotations.
 Local Open Scope N_scope.
 
@@ -186,6 +186,45 @@ Corollary C01_no_foreign_byte : forall cfg,
 Proof. exact no_foreign_byte_lemma. Qed.
 Print Assumptions C01_no_foreign_byte.
 
+(* A call is completed at most once - by every step sequence whatsoever, with or without
+   the lock and the hypotheses above: the allocation numbers in the completion history are
+   pairwise distinct and a completed call is no longer in the table (a second reply with the
+   same sequence number finds no entry). *)
+Theorem C01_call_completes_at_most_once : forall cfg st, reach_any cfg st -> forall s,
+  NoDup (map (fun cr : callrec * result => c_no (fst cr)) (e_done (ep_of st s))) /\
+  (forall cr q c, In cr (e_done (ep_of st s)) -> pget (e_pending (ep_of st s)) q = Some c ->
+     c_no c <> c_no (fst cr)).
+Proof. exact completes_once_lemma. Qed.
+Print Assumptions C01_call_completes_at_most_once.
+
+(* "One frame = one Write" is the other sufficient discipline: WITHOUT the write lock, if
+   every frame is handed to the connection as a single chunk ([reach1]: every ELock carries
+   exactly one chunk; a Write call of the connection is atomic), a partial frame is never on
+   the wire, the reader never desyncs and no foreign byte is observable. The code has both
+   disciplines; the harness checks both (no overlapping Write calls on a connection under a
+   mid-frame stall; every Write call is exactly one frame). *)
+Theorem C01_single_write_frames_whole : forall cfg,
+  cf_lock cfg = false -> (forall g, In g (cf_reg cfg) -> inverts g) ->
+  forall st, reach1 cfg st -> forall s,
+  exists whole, Forall (Wire.wf_frame cfg) whole /\ queue st s = concat (map fr_bytes whole).
+Proof. exact single_write_whole_lemma. Qed.
+Print Assumptions C01_single_write_frames_whole.
+
+Theorem C01_single_write_no_foreign_byte : forall cfg,
+  cf_lock cfg = false -> (forall g, In g (cf_reg cfg) -> inverts g) ->
+  forall st, reach1 cfg st -> forall s,
+  e_broken (ep_of st s) = false /\
+  (forall c stt b mt, In (c, RReply stt b mt) (e_done (ep_of st s)) -> st_code stt = 0%Z ->
+     In c (e_issued (ep_of st s)) /\
+     b = fst (fst (cf_handler cfg (other s) (c_method c) (c_args c) (c_meta c))) /\
+     mt = snd (fst (cf_handler cfg (other s) (c_method c) (c_args c) (c_meta c)))) /\
+  (forall h, In h (e_seen (ep_of st s)) ->
+     if h_push h then In (h_method h, h_body h, h_meta h) (e_sent (ep_of st (other s)))
+     else exists c, In c (e_issued (ep_of st (other s))) /\
+                    h_method h = c_method c /\ h_body h = c_args c /\ h_meta h = c_meta c).
+Proof. exact single_write_no_foreign_lemma. Qed.
+Print Assumptions C01_single_write_no_foreign_byte.
+
 (* The sender's own memory: the repaired integrity filter (xfer/md5 OnPack allocates its
    result) leaves the backing array of the slice it is given untouched and returns content ++
    digest, for every slice window, capacity and digest function ... *)
@@ -217,6 +256,14 @@ Example C01_example_run :
     length (e_seen (ep_of st SB)) = 2%nat /\ length (e_seen (ep_of st SA)) = 1%nat /\
     e_pending (ep_of st SA) = [] /\ queue st SA = [] /\ queue st SB = [].
 Proof. exact good_run_exists. Qed.
+
+(* the single-write hypotheses are satisfiable: no lock, two goroutines inside WriteMessage at
+   the same time on each side, every frame one chunk, both calls complete *)
+Example C01_example_single_write_run :
+  exists st, reach1 cfg_nolock st /\
+    length (e_done (ep_of st SA)) = 2%nat /\ length (e_seen (ep_of st SB)) = 2%nat /\
+    e_pending (ep_of st SA) = [] /\ queue st SA = [] /\ queue st SB = [].
+Proof. exact single_write_run_exists. Qed.
 
 (* the interleaving schedule of the counter-model is refused by the lock *)
 Example C01_example_lock_refuses : run cfg_locked init nolock_trace = None.
